@@ -3,6 +3,7 @@
 Exit 1: the recorded failing input still fails on this tree; 0: it no longer fails; 2: the file carries no concrete input
 (the violation was reported with `no-failing-input-found`: the failed obligation and the verifier's output are printed).
 """
+import ast
 import json
 import sys
 
@@ -58,6 +59,42 @@ def main(argv):
         msg = toyforms.CHECKS[spec['prop']](o)
         print('native run of the toy program on the real Solver:', msg or 'the statement holds on this tree')
         return 1 if msg else 0
+    if kind == 'roles':
+        from . import replay as _rp
+        from .props import roles
+        import habutax.enum as E
+        def conv(d):
+            out = {}
+            for k, v in d.items():
+                if 'Taxpayer or Spouse' in str(v):
+                    out[k] = E.taxpayer_or_spouse.taxpayer if '.taxpayer' in str(v) else E.taxpayer_or_spouse.spouse
+                else:
+                    out[k] = ast.literal_eval(v) if isinstance(v, str) else v
+            return out
+        ins, vals = conv(spec['inputs']), conv(spec['values'])
+        sw_in = {(roles.swap_name('i|' + k) or ('i|' + k))[2:]: v for k, v in ins.items()}
+        sw_va = {}
+        for k, v in vals.items():
+            if isinstance(v, E.taxpayer_or_spouse):
+                v = E.taxpayer_or_spouse.spouse if v is E.taxpayer_or_spouse.taxpayer else E.taxpayer_or_spouse.taxpayer
+            sw_va[(roles.swap_name('v|' + k) or ('v|' + k))[2:]] = v
+        r1 = _rp.replay_line(spec['year'], spec['line'], ins, vals)
+        r2 = _rp.replay_line(spec['year'], spec['line'], sw_in, sw_va)
+        o1, o2 = (r1.get('outcome'), r1.get('value'), r1.get('exc')), (r2.get('outcome'), r2.get('value'), r2.get('exc'))
+        print('native:', spec['line'], 'gives', o1, 'and with the roles of taxpayer and spouse swapped', o2)
+        return 1 if o1 != o2 else 0
+    if kind == 'copies':
+        from . import replay as _rp
+        from .props import roles
+        ins = {k: ast.literal_eval(v) for k, v in spec['inputs'].items()}
+        vals = {k: ast.literal_eval(v) for k, v in spec['values'].items()}
+        sw_in = {(roles.swap_name('i|' + k) or ('i|' + k))[2:]: v for k, v in ins.items()}
+        sw_va = {(roles.swap_name('v|' + k) or ('v|' + k))[2:]: v for k, v in vals.items()}
+        r1 = _rp.replay_line(spec['year'], spec['spouse_line'], ins, vals)
+        r2 = _rp.replay_line(spec['year'], spec['taxpayer_line'], sw_in, sw_va)
+        o1, o2 = (r1.get('outcome'), r1.get('value'), r1.get('exc')), (r2.get('outcome'), r2.get('value'), r2.get('exc'))
+        print('native:', spec['spouse_line'], 'gives', o1, ';', spec['taxpayer_line'], 'in the mirrored situation gives', o2)
+        return 1 if o1 != o2 else 0
     if kind == 'mirror':
         from . import toyforms
         sc = spec['scenario']
